@@ -258,7 +258,16 @@ func runDaemonCase(in *bufio.Scanner, w *bufio.Writer) {
 			os.MkdirAll(out, 0755)
 			sock = filepath.Join(tmp, "frames.sock")
 			toml, _ := hex.DecodeString(vKv(f, "toml"))
-			text := strings.ReplaceAll(string(toml), "@OUT@", out)
+			// the same directory spelled in a non-canonical way (a trailing or a doubled slash): start-up clean-up and everything
+			// else must behave as for the canonical spelling
+			outSpelled := out
+			switch vKv(f, "outstyle") {
+			case "1":
+				outSpelled = out + "/"
+			case "2":
+				outSpelled = filepath.Dir(out) + "//" + filepath.Base(out)
+			}
+			text := strings.ReplaceAll(string(toml), "@OUT@", outSpelled)
 			text = strings.ReplaceAll(text, "@SOCK@", sock)
 			if strings.Contains(text, "@FREE-") {
 				var fs syscall.Statfs_t
@@ -464,7 +473,7 @@ func genDaemon(r *vRng, tier string, w *bufio.Writer) {
 			}
 			f[2] = "daemon"
 			refused = false
-			fmt.Fprintln(w, strings.Join(f, " "))
+			fmt.Fprintln(w, strings.Join(f, " ")+fmt.Sprintf(" outstyle=%d", r.pick(0, 0, 1, 2)))
 			for _, n := range names {
 				if r.chance(40) {
 					fmt.Fprintln(w, "pre", hex.EncodeToString([]byte(n)))
